@@ -150,9 +150,24 @@ def run(ck):
     ck.ob("R3", "rebuild_edges:from-bto", ok, m.where(fn), "edges/pendings are not derived from each block's bto")
     ok = bool(loops) and any(isinstance(n, ast.Assign) and "self.edges2constraint[" in norm(n.targets[0]) and norm(n.value).endswith(".c_t") for n in walk_local(loops[0]))
     ck.ob("R3", "rebuild_edges:update-kind", ok, m.where(fn), "the constraint kind of an existing edge is not refreshed from bto")
-    rm = [n for n in walk_body(fn) if isinstance(n, ast.For) and "successors" in norm(n.iter)]
-    ok = bool(rm) and any(isinstance(c, ast.Call) and dotted(c.func) == "self.del_edge" for c in walk_local(rm[0])) and \
-        any(isinstance(t, ast.If) and "not in" in norm(t.test) for t in walk_local(rm[0]))
+    # the removal loop: some loop calling del_edge whose selection excludes what the bto loop collected
+    # (`if edge not in <collected>` or iterating `<all successors> - <collected>`)
+    collected = set()
+    if loops:
+        for c in walk_local(loops[0]):
+            if isinstance(c, ast.Call) and isinstance(c.func, ast.Attribute) and c.func.attr in ("append", "add") and isinstance(c.func.value, ast.Name):
+                collected.add(c.func.value.id)
+    ok = False
+    for lp in [n for n in walk_body(fn) if isinstance(n, ast.For) and not norm(n.iter).endswith(".bto")]:
+        if not any(isinstance(c, ast.Call) and dotted(c.func) == "self.del_edge" for c in walk_local(lp)):
+            continue
+        by_test = any(isinstance(t, ast.If) and isinstance(t.test, ast.Compare) and isinstance(t.test.ops[0], ast.NotIn) and
+                      isinstance(t.test.comparators[0], ast.Name) and t.test.comparators[0].id in collected and
+                      any(isinstance(c, ast.Call) and dotted(c.func) == "self.del_edge" for c in walk_local(t)) for t in walk_local(lp))
+        by_diff = any(isinstance(b, ast.BinOp) and isinstance(b.op, ast.Sub) and isinstance(b.right, ast.Name) and b.right.id in collected
+                      for b in walk_local(lp.iter))
+        if by_test or by_diff:
+            ok = True
     ck.ob("R3", "rebuild_edges:remove-stale", ok, m.where(fn), "edges no longer backed by a bto constraint are not removed")
 
     # ---------------------------------------------------------------- R4
